@@ -192,6 +192,52 @@ def nested_fit(kind, seed=0):
     return f
 
 
+def stock_sgd(kind, seed=0):
+    """torch.optim.SGD itself (not a subclass), no optimizer arguments, a scheduler that changes the rate every epoch:
+    every batch moves the parameters by -(scheduled rate) * gradient."""
+    from qucumber.callbacks import LambdaCallback
+    rng = np.random.default_rng(seed)
+    torch.manual_seed(seed)
+    st = C.make_state(kind, 2, 2, 1)
+    N, B, lr = 5, 2, 0.2
+    data = torch.tensor(rng.integers(0, 2, size=(N, 2)), dtype=torch.double)
+    kw = {}
+    if kind != "positive":
+        b = np.array([list(rng.choice(["XZ", "ZZ", "ZY"])) for _ in range(N)])
+        b[0] = list("ZZ")
+        kw["input_bases"] = b
+    real = st.compute_batch_gradients
+    last, f = {}, []
+
+    def spy(k_, *batch):
+        g = real(k_, *batch)
+        last["g"] = [x.detach().clone() for x in g]
+        return g
+    st.compute_batch_gradients = spy
+
+    def params():
+        return [p.detach().clone() for net in st.networks for p in getattr(st, net).parameters()]
+
+    def start(s, e, b_):
+        last["before"] = params()
+
+    def end(s, e, b_):
+        rate = lr * 0.5 ** (e - 1)
+        i = 0
+        for ni, net in enumerate(st.networks):
+            off = 0
+            for p in getattr(st, net).parameters():
+                n_ = p.numel()
+                want = last["before"][i] - rate * last["g"][ni][off:off + n_].view(p.shape)
+                if not torch.allclose(p.detach(), want, rtol=1e-10, atol=1e-13):
+                    f.append("epoch %d batch %d: %s parameter %d did not move by -(scheduled rate %g) * gradient" % (e, b_, net, i, rate))
+                off += n_
+                i += 1
+    st.fit(data, epochs=3, pos_batch_size=B, k=1, lr=lr, optimizer=torch.optim.SGD, scheduler=torch.optim.lr_scheduler.StepLR,
+           scheduler_args={"step_size": 1, "gamma": 0.5}, callbacks=[LambdaCallback(on_batch_start=start, on_batch_end=end)], **kw)
+    return f[:3]
+
+
 def cases(quick):
     c = [("positive", 5, 2, None, 1), ("positive", 4, 4, 3, 0), ("complex", 5, 3, 2, 2), ("mixed", 4, 2, None, 1)]
     if not quick:
@@ -201,6 +247,10 @@ def cases(quick):
 
 def replay(cfg):
     fails = []
+    for kind in ("positive", "complex"):
+        f = stock_sgd(kind)
+        if f:
+            fails.append(((kind, "torch.optim.SGD with a StepLR scheduler"), f[:2]))
     for kind in ("positive", "complex"):
         f = nested_fit(kind)
         if f:
@@ -218,6 +268,11 @@ def replay(cfg):
 
 def bounded(tier, seed):
     bad, n = [], 0
+    for kind in ("positive", "complex", "mixed"):
+        f = stock_sgd(kind, seed)
+        n += 1
+        if f:
+            bad.append(((kind, "torch.optim.SGD with a StepLR scheduler"), f[:2]))
     for kind in ("positive", "complex"):
         f = nested_fit(kind, seed)
         n += 1
